@@ -240,8 +240,9 @@ func diffMsg(col *collector, a, b protoreflect.Message, kp, p string) bool {
 	}
 	found := false
 	fds := a.Descriptor().Fields()
+	nctx := len(col.ctx)
+	defer func() { col.ctx = col.ctx[:nctx] }()
 	if nf := fds.ByName("name"); nf != nil && nf.Kind() == protoreflect.StringKind && !nf.IsList() {
-		n := len(col.ctx)
 		na, nb := a.Get(nf).String(), b.Get(nf).String()
 		if na != "" {
 			col.ctx = append(col.ctx, na)
@@ -249,7 +250,18 @@ func diffMsg(col *collector, a, b protoreflect.Message, kp, p string) bool {
 		if nb != "" && nb != na {
 			col.ctx = append(col.ctx, nb)
 		}
-		defer func() { col.ctx = col.ctx[:n] }()
+	}
+	if fds.ByName("cluster") != nil || fds.ByName("weighted_clusters") != nil {
+		// what a route action / TCP proxy is about: the clusters it sends to (context for attributing a difference to a hostname)
+		seen := map[string]bool{}
+		for _, m := range []protoreflect.Message{a, b} {
+			for _, cn := range routeActionClusters(m) {
+				if !seen[cn] {
+					seen[cn] = true
+					col.ctx = append(col.ctx, cn)
+				}
+			}
+		}
 	}
 	for i := 0; i < fds.Len() && !col.full(); i++ {
 		fd := fds.Get(i)
@@ -300,6 +312,37 @@ func diffMsg(col *collector, a, b protoreflect.Message, kp, p string) bool {
 		found = true
 	}
 	return found
+}
+
+// routeActionClusters lists the cluster names of a RouteAction (cluster, weighted clusters, mirrors).
+func routeActionClusters(m protoreflect.Message) []string {
+	var out []string
+	fds := m.Descriptor().Fields()
+	if fd := fds.ByName("cluster"); fd != nil && fd.Kind() == protoreflect.StringKind && !fd.IsList() && m.Has(fd) {
+		out = append(out, m.Get(fd).String())
+	}
+	if fd := fds.ByName("weighted_clusters"); fd != nil && fd.Message() != nil && !fd.IsList() && m.Has(fd) {
+		wc := m.Get(fd).Message()
+		if cfd := wc.Descriptor().Fields().ByName("clusters"); cfd != nil && cfd.IsList() && cfd.Message() != nil {
+			l := wc.Get(cfd).List()
+			for i := 0; i < l.Len(); i++ {
+				e := l.Get(i).Message()
+				if nfd := e.Descriptor().Fields().ByName("name"); nfd != nil && nfd.Kind() == protoreflect.StringKind {
+					out = append(out, e.Get(nfd).String())
+				}
+			}
+		}
+	}
+	if fd := fds.ByName("request_mirror_policies"); fd != nil && fd.IsList() && fd.Message() != nil && m.Has(fd) {
+		l := m.Get(fd).List()
+		for i := 0; i < l.Len(); i++ {
+			e := l.Get(i).Message()
+			if cfd := e.Descriptor().Fields().ByName("cluster"); cfd != nil && cfd.Kind() == protoreflect.StringKind {
+				out = append(out, e.Get(cfd).String())
+			}
+		}
+	}
+	return out
 }
 
 func scalarEqual(fd protoreflect.FieldDescriptor, a, b protoreflect.Value) bool {
